@@ -112,9 +112,37 @@ class Parser:
         return out
 
     def parse(self, pattern, flags=0, charmap=None):
+        """A trailing word boundary (`kw\\b`) or one-character negative look-ahead (`kw(?![\\w.])`) is supported as a follow restriction: the returned node is the token language
+        itself and carries `follow_not` = the word characters, which must not come next (see `prefix_of`).  It is only
+        accepted when every string of the token language ends in a word character (then `\\b` means exactly that)."""
         tree = sre_parse.parse(pattern, flags)
         ic = bool(tree.state.flags & re.IGNORECASE)
-        return self._seq(tree, ic, charmap)
+        items = list(tree)
+        # a pattern wrapped in one group (SLY parenthesises decorated patterns): look inside
+        while len(items) == 1 and items[0][0] == sre_c.SUBPATTERN and not items[0][1][1] and not items[0][1][2]:
+            items = list(items[0][1][3])
+        follow_not = None
+        boundary = False
+        if items and items[-1][0] == sre_c.AT and str(items[-1][1]) == "AT_BOUNDARY":
+            items = items[:-1]
+            follow_not = norm(self.cat_ranges("w"))
+            boundary = True
+        elif items and items[-1][0] == sre_c.ASSERT_NOT and items[-1][1][0] == 1:
+            # trailing negative look-ahead of exactly one character: (?![...])
+            body = list(items[-1][1][1])
+            if len(body) != 1 or body[0][0] not in (sre_c.IN, sre_c.LITERAL, sre_c.CATEGORY):
+                raise RegexUnsupported("look-ahead other than one character class")
+            cls_node = self._item(body[0][0], body[0][1], ic, None)
+            follow_not = norm(cls_node.ranges)
+            items = items[:-1]
+        node = self._seq(items, ic, charmap)
+        if boundary:
+            g = Group({"T": node, "BAD": Alt([EPS, Cat([anystar(), Chars(complement(follow_not))])])})
+            if g.intersect_witness("T", "BAD") is not None:
+                raise RegexUnsupported("trailing \\b after a token that may end in a non-word character")
+        if follow_not is not None:
+            node.follow_not = follow_not
+        return node
 
     def _set(self, ranges, charmap):
         ranges = norm(ranges)
@@ -184,6 +212,15 @@ class Parser:
             lo, hi, sub = av
             return Rep(self._seq(sub, ic, cm), lo, None if hi == sre_c.MAXREPEAT else hi)
         raise RegexUnsupported(f"regex construct {op}")
+
+
+def prefix_of(node):
+    """language of the inputs at whose start the rule `node` matches: node . anything, or, for a rule with a trailing
+    word boundary, node followed by end of input or by a non-word character"""
+    fn = getattr(node, "follow_not", None)
+    if fn is None:
+        return Cat([node, anystar()])
+    return Cat([node, Alt([EPS, Cat([Chars(complement(fn)), anystar()])])])
 
 
 # ---- alphabet compression ------------------------------------------------------------------------
